@@ -107,7 +107,7 @@ theorem run_append (s : State) (ops ops' : List Op) : (run s (ops ++ ops')).1 = 
 
 theorem overlapScan_sorted (prio : Nat) (m : OfMatch) (t : Table EData) (hs : Sorted t) :
     overlapScan prio m t =
-      t.any (fun e => e.effectivePriority == prio && (m.matchesWith true e.mtch || e.mtch.matchesWith true m)) := by
+      t.any (fun e => e.effectivePriority == prio && overlapsWith e.mtch m) := by
   induction t with
   | nil => rfl
   | cons e r ih =>
@@ -128,7 +128,7 @@ theorem overlapScan_sorted (prio : Nat) (m : OfMatch) (t : Table EData) (hs : So
         exact ih hs'.2
       · have heq : (e.effectivePriority == prio) = true := by simp; omega
         simp only [h1, if_false, h2, heq, Bool.true_and]
-        cases hc : (m.matchesWith true e.mtch || e.mtch.matchesWith true m)
+        cases hc : overlapsWith e.mtch m
         · simp [ih hs'.2]
         · simp
 
@@ -314,5 +314,142 @@ theorem step_clockOk (s : State) (op : Op) (h : ClockOk s) : ClockOk (step s op)
     exact ⟨Nat.le_trans this.1 this.2, hn⟩
   · simp only [mkEntry]
     exact ⟨Nat.le_refl _, hn⟩
+
+/-! ## who leaves the table, and what is said about it -/
+
+/-- the flow-removed messages among what a step writes -/
+def removals (outs : List Out) : List RemovedMsg :=
+  outs.filterMap fun o => match o with
+    | .flowRemoved m => some m
+    | _ => none
+
+theorem removals_notify (now reason : Nat) (es : List FEntry) :
+    removals (notify now reason es) = (es.filter wantsRemoved).map (removedMsg now reason) := by
+  unfold removals notify
+  rw [List.filterMap_map]
+  generalize es.filter wantsRemoved = l
+  induction l with
+  | nil => rfl
+  | cons x r ih => simp [ih]
+
+theorem removals_append (a b : List Out) : removals (a ++ b) = removals a ++ removals b := by
+  unfold removals; exact List.filterMap_append
+
+theorem flowModAdd_removals (s : State) (fm : FlowModMsg) : removals (flowModAdd s fm).2 = [] := by
+  unfold flowModAdd flowModFailed
+  split
+  · rfl
+  · split
+    · rfl
+    · split <;> rfl
+
+theorem flowModModify_removals (s : State) (fm : FlowModMsg) (strict : Bool) : removals (flowModModify s fm strict).2 = [] := by
+  unfold flowModModify
+  simp only
+  split
+  · rfl
+  · exact flowModAdd_removals s fm
+
+/-- the entries a step removes *with a reason*: an expiry sweep removes the idle-expired entries (reason IDLE_TIMEOUT) and,
+    among the others, the hard-expired ones (HARD_TIMEOUT); DELETE / DELETE_STRICT remove the selected entries (DELETE).
+    No other step removes an entry for a reason (ADD may *replace* one). -/
+def departures (s : State) : Op → List (FEntry × Nat)
+  | .sweep =>
+    (s.table.filter (idleOut s.now)).map (fun e => (e, OFPRR_IDLE_TIMEOUT)) ++
+    (s.table.filter (fun e => !idleOut s.now e && hardOut s.now e)).map (fun e => (e, OFPRR_HARD_TIMEOUT))
+  | .flowMod fm =>
+    (match fm.cmd with
+     | .delete => (s.table.filter (fun e => isMatchedBy e (ofWire fm.mtch) fm.priority false (portFilter fm.outPort))).map
+                    (fun e => (e, OFPRR_DELETE))
+     | .deleteStrict => (s.table.filter (fun e => isMatchedBy e (ofWire fm.mtch) fm.priority true (portFilter fm.outPort))).map
+                    (fun e => (e, OFPRR_DELETE))
+     | _ => [])
+  | _ => []
+
+theorem filter_map_pair (l : List FEntry) (r : Nat) :
+    ((l.map (fun e => (e, r))).filter (fun d => wantsRemoved d.1)).map (fun d => removedMsg now d.2 d.1) =
+      (l.filter wantsRemoved).map (removedMsg now r) := by
+  induction l with
+  | nil => rfl
+  | cons x t ih =>
+    simp only [List.map_cons, List.filter_cons]
+    split
+    · simp [ih]
+    · exact ih
+
+/-- every flow-removed message of a step announces one departure that asked for it, with its reason, duration and counters —
+    in order, one message per such departure, and nothing else is announced -/
+theorem step_removals (s : State) (op : Op) :
+    removals (step s op).2 =
+      ((departures s op).filter (fun d => wantsRemoved d.1)).map (fun d => removedMsg s.now d.2 d.1) := by
+  cases op with
+  | flowMod fm =>
+    cases hc : fm.cmd
+    · simp only [step, flowModStep, departures, hc]
+      exact flowModAdd_removals s fm
+    · simp only [step, flowModStep, departures, hc]
+      exact flowModModify_removals s fm false
+    · simp only [step, flowModStep, departures, hc]
+      exact flowModModify_removals s fm true
+    · simp only [step, flowModStep, departures, hc, flowModDelete, removals_notify, filter_map_pair, portFilter]
+    · simp only [step, flowModStep, departures, hc, flowModDelete, removals_notify, filter_map_pair, portFilter]
+  | packet p port len =>
+    simp only [step, packetStep, departures]
+    split <;> rfl
+  | advance dt => rfl
+  | sweep =>
+    simp only [step, sweep, departures, removals_append, removals_notify, List.filter_append, List.map_append, filter_map_pair]
+  | flowStats m o => rfl
+  | aggStats m o => rfl
+
+/-- the departures are exactly what the step takes out of the table: old table = new table + departed entries (as multisets),
+    for the two kinds of step that remove entries for a reason -/
+theorem sweep_perm (s : State) : s.table.Perm ((step s .sweep).1.table ++ (departures s .sweep).map (·.1)) := by
+  simp only [step, sweep, departures, List.map_append, List.map_map]
+  have e1 : ((fun d : FEntry × Nat => d.1) ∘ fun e => (e, OFPRR_IDLE_TIMEOUT)) = id := rfl
+  have e2 : ((fun d : FEntry × Nat => d.1) ∘ fun e => (e, OFPRR_HARD_TIMEOUT)) = id := rfl
+  rw [e1, e2, List.map_id, List.map_id]
+  -- split by idle first, then the rest by hard
+  have p1 := filter_perm_split (idleOut s.now) s.table
+  have p2 := filter_perm_split (hardOut s.now) (s.table.filter (fun e => !idleOut s.now e))
+  simp only [List.filter_filter] at p2
+  have f1 : (fun e => !hardOut s.now e && !idleOut s.now e) = (fun e => !idleOut s.now e && !hardOut s.now e) := by
+    funext e; exact Bool.and_comm _ _
+  have f2 : (fun e => hardOut s.now e && !idleOut s.now e) = (fun e => !idleOut s.now e && hardOut s.now e) := by
+    funext e; exact Bool.and_comm _ _
+  rw [f1, f2] at p2
+  refine p1.trans ?_
+  refine ((p2.append_right _).trans ?_)
+  -- (keep ++ hard) ++ idle  ~  keep ++ (idle ++ hard)
+  rw [List.append_assoc]
+  exact List.Perm.append_left _ List.perm_append_comm
+
+theorem delete_perm (s : State) (fm : FlowModMsg) (h : fm.cmd = .delete ∨ fm.cmd = .deleteStrict) :
+    s.table.Perm ((step s (.flowMod fm)).1.table ++ (departures s (.flowMod fm)).map (·.1)) := by
+  have e1 : ((fun d : FEntry × Nat => d.1) ∘ fun e => (e, OFPRR_DELETE)) = id := rfl
+  rcases h with h | h
+  · simp only [step, flowModStep, departures, h, flowModDelete, List.map_map, e1, List.map_id, portFilter]
+    exact filter_perm_split _ _
+  · simp only [step, flowModStep, departures, h, flowModDelete, List.map_map, e1, List.map_id, portFilter]
+    exact filter_perm_split _ _
+
+/-- after a sweep no entry past a deadline remains -/
+theorem sweep_clean (s : State) (e : FEntry) (he : e ∈ (step s .sweep).1.table) :
+    idleOut s.now e = false ∧ hardOut s.now e = false := by
+  simp only [step, sweep, List.mem_filter, Bool.and_eq_true, Bool.not_eq_true'] at he
+  exact he.2
+
+/-- the expiry comparison, in integers: `(now - last_touched) > idle_timeout` / `(now - created) > hard_timeout` -/
+theorem idleOut_iff (now : Nat) (e : FEntry) :
+    idleOut now e = true ↔ e.data.idle > 0 ∧ e.data.touched + e.data.idle * 1000 < now := by
+  unfold idleOut
+  simp only [Bool.and_eq_true, decide_eq_true_eq]
+  constructor <;> (rintro ⟨h1, h2⟩; exact ⟨h1, by omega⟩)
+
+theorem hardOut_iff (now : Nat) (e : FEntry) :
+    hardOut now e = true ↔ e.data.hard > 0 ∧ e.data.created + e.data.hard * 1000 < now := by
+  unfold hardOut
+  simp only [Bool.and_eq_true, decide_eq_true_eq]
+  constructor <;> (rintro ⟨h1, h2⟩; exact ⟨h1, by omega⟩)
 
 end Pox.FlowMod
